@@ -219,7 +219,13 @@ func (e StdEng) Dot(x, y Tensor, opts ...FuncOpt) (retVal Tensor, err error) {
 			// y is an operand: lazily transpose a shallow clone, never y itself (which would be
 			// visible to concurrent readers, and undone wrongly if y was already transposed)
 			if bd, ok := b.(*Dense); ok {
-				b = bd.ShallowClone()
+				if bd.IsMaterializable() {
+					// T() physically transposes a tensor that already has a pending transposition (and a
+					// view's data belongs to its parent): that must happen in a private copy
+					b = bd.Materialize().(*Dense)
+				} else {
+					b = bd.ShallowClone()
+				}
 			}
 			b.T()
 			defer b.UT()
